@@ -517,6 +517,45 @@ func runCorrupt(r *Run, variant string) {
 			rows, qerr, _ = QueryAll(qeng, WithTag(context.Background(), "q-corrupt"), q)
 			done = true
 		})
+		// Further readers of the same (corrupted) store, slow consumers: what a failed block left
+		// behind in shared state (pooled buffers, handles) must not leak into their answers.
+		type extraRes struct {
+			rows []map[string]any
+			err  error
+			done bool
+		}
+		extras := make([]*extraRes, r.S.Draw(3))
+		for i := range extras {
+			x := &extraRes{}
+			extras[i] = x
+			name := fmt.Sprintf("reader%d", i+2)
+			simrt.GoNamed(name, func() {
+				simrt.Gate("op", "query "+name, nil)
+				res, err := qeng.Query(WithTag(context.Background(), "q-"+name), q)
+				if err != nil {
+					x.err, x.done = err, true
+					return
+				}
+				n := 0
+				for res.Next() {
+					x.rows = append(x.rows, res.Row())
+					if n++; n%8 == 0 {
+						simrt.Gate("op", "next "+name, nil)
+					}
+				}
+				x.err = res.Err()
+				res.Close()
+				x.done = true
+			})
+		}
+		allDone := func() bool {
+			for _, x := range extras {
+				if !x.done {
+					return false
+				}
+			}
+			return done
+		}
 		r.OnPick = func() {
 			if !applied && r.S.Chance(150) {
 				disk.SetFileBytes(victim, corrupted)
@@ -525,13 +564,39 @@ func runCorrupt(r *Run, variant string) {
 				r.Probe("corrupt.mid-query")
 			}
 		}
-		r.Loop(func() bool { return done }, 10*time.Second)
+		r.Loop(allDone, 10*time.Second)
 		r.OnPick = nil
-		if !done {
+		if !allDone() {
 			r.Budget = true
 			break
 		}
 		simrt.SetMode(simrt.ModeOff)
+		if len(extras) > 0 {
+			r.Probe("corrupt.concurrent-readers")
+		}
+		for i, x := range extras {
+			label := fmt.Sprintf("%s (concurrent reader %d)", what, i+2)
+			xgot := map[string]int{}
+			for _, row := range x.rows {
+				st.checkRow(label+" query (metadata held by the MetaStore)", row)
+				xgot[idOfRow(row)]++
+			}
+			if x.err != nil {
+				continue
+			}
+			for rid := range expect {
+				if xgot[rid] != 1 {
+					r.Violate("C19", "wrong-answer-without-error", "%s: query %s finished with nil error but returned row %s %d times (exact answer has %d rows, returned %d)", label, describeQuery(q), rid, xgot[rid], len(expect), len(x.rows))
+					break
+				}
+			}
+			for rid := range xgot {
+				if !expect[rid] {
+					r.Violate("C19", "wrong-answer-without-error", "%s: query %s finished with nil error but returned non-matching row %s", label, describeQuery(q), rid)
+					break
+				}
+			}
+		}
 		got := map[string]int{}
 		for _, row := range rows {
 			st.checkRow(what+" query (metadata held by the MetaStore)", row)
